@@ -30,6 +30,9 @@ def scripts(rng, tmpdir):
                                 'vd 1 digest', 'vd 0 convert 0 10', 'vd 0 digest', 'vd 0 free', 'vd 1 free']))
     S.append(('vnadata-fz0', ['vd 0 alloc', 'vd 0 init 0 0 0 1', 'vd 0 set_fz0_vector 0', 'vd 0 resize 0 0 0 3', 'vd 0 resize 1 2 2 3', 'vd 0 set_fz0 2 1 %s' % z(40),
                               'vd 0 set_all_z0 %s' % z(50), 'vd 0 digest', 'vd 0 free']))
+    # init / resize of an object that is in per-frequency z0 mode (leaving that mode allocates)
+    S.append(('vnadata-reinit', ['vd 0 alloc', 'vd 0 init 1 2 2 3', 'vd 0 set_fz0 1 0 %s' % z(75 + 1j), 'vd 0 init 5 1 1 4', 'vd 0 digest', 'vd 0 set_fz0_vector 2',
+                                 'vd 0 resize 1 3 3 2', 'vd 0 init 1 2 2 1', 'vd 0 digest', 'vd 0 free']))
     # property tree
     S.append(('property', ['pt 0 set ' + h('a.b=1'), 'pt 0 set ' + h('a.list[3]=x'), 'pt 0 set ' + h('a.list[1+]=y'), 'pt 0 set ' + h('m.k1.k2.k3=deep'),
                            'pt 0 keys ' + h('a'), 'pt 0 get ' + h('a.b'), 'pt 0 type ' + h('a.list'), 'pt 0 count ' + h('a.list'), 'pt 0 get_subtree ' + h('m.k1'), 'pt 0 quote_key ' + h('k.e y'), 'pt 1 copy 0', 'pt 1 digest', 'pt 0 delete ' + h('a.list[0]'),
